@@ -73,6 +73,12 @@ def main(argv=None):
             from . import selftest as st
 
             selftest = st.run_for_property(prop, mod, ctx)
+            try:
+                from . import corpus_replay as cr
+
+                selftest["corpus_replay"] = cr.run_for_property(prop, mod, ctx)
+            except Exception as e:
+                selftest["corpus_replay"] = {"error": repr(e)}
         except Exception as e:  # the self-test never decides the exit status
             selftest = {"error": repr(e)}
     return report.finish(prop, a.tier, obs, errors, t0, mod.EXPLANATION, mod.RULE_TEXT, extra=extra, selftest=selftest)
